@@ -10,5 +10,6 @@ def run(ctx):
     gens = [{"module": "Gen_C20.tla", "cfg": "Gen_C20_udp.cfg", "name": "udp"},
             {"module": "Gen_C20.tla", "cfg": "Gen_C20_tcp_quick.cfg" if ctx.quick else "Gen_C20_tcp_thorough.cfg", "name": "tcp"},
             {"module": "Gen_C20.tla", "cfg": "Gen_C20_tcpclose.cfg", "name": "tcpclose"},   # server answers, then closes
+            {"module": "Gen_C20.tla", "cfg": "Gen_C20_tcpmixed.cfg", "name": "tcpmixed"},   # answers of unequal size
             {"module": "GenTcpFail.tla", "cfg": "GenTcpFail.cfg", "name": "tcpfail"}]
     simlib.engine_check(ctx, gens, FACETS, labels=("c20.",), selftests=mutators.STREAM)
